@@ -202,3 +202,5 @@ INFO = dict(
     outside=["graphs with > 4 nodes", "non-convergent weights"],
     assumptions=["edge weights >= 0", "leading principal minors of I-A positive (series converges)"],
 )
+
+INFO["technique"] = 'symbolic execution of the closure/solver routines on all 3-node weighted graphs with z3 real weights and with non-commutative 2x2 matrix weights (block-expansion oracle); z3 proves equality with (I-A)^-1 (Cramer); bounded'
